@@ -193,6 +193,12 @@ var c12Ops = []c12Op{
 		})
 		return sb.String()
 	}},
+	{"decode-unrelated", func(x ap.Item) string {
+		// decoding independent inputs while x is held
+		it, err := ap.UnmarshalJSON([]byte(c12Doc2))
+		it2, err2 := ap.UnmarshalJSON([]byte(c12Doc))
+		return fmt.Sprint(err == nil && it != nil, err2 == nil && it2 != nil)
+	}},
 	{"ItemOrderTimestamp", func(x ap.Item) string {
 		if ap.IsObject(x) {
 			return fmt.Sprint(ap.ItemOrderTimestamp(x, x))
@@ -290,6 +296,15 @@ var c12Gen = rapid.Custom(func(t *rapid.T) ap.Item {
 			x = append(ap.ItemCollection{ap.NilIRI}, l...)
 		}
 	}
+	// a value that came out of the decoder (it may still share memory with whatever the decoder used): a later decode of an unrelated
+	// document, one of the operations below, must not change it
+	if rapid.IntRange(0, 3).Draw(t, "from-decoder") == 0 {
+		if b, err := ap.MarshalJSON(x); err == nil && len(b) > 0 {
+			if y, err := ap.UnmarshalJSON(b); err == nil && !ap.IsNil(y) {
+				return y
+			}
+		}
+	}
 	c12Spare(x)
 	return x
 })
@@ -318,6 +333,9 @@ func c12Sequential(x ap.Item) (ds []keyed, results []string) {
 	}
 	return ds, results
 }
+
+// c12Doc2: an unrelated document, long enough to overwrite whatever buffer an earlier decode may have left shared
+const c12Doc2 = `{"type":"Note","id":"https://unrelated.example.net/n/2","source":{"content":"zzzzzzzzzzzzzzzzzzzzzzzzzzzzzzzzzzzzzzzzzzzzzzzzzzzzzzzzzzzzzzzzzzzzzzzzzzzzzzzzzzzzzzzz","mediaType":"text/plain"},"content":"yyyyyyyyyyyyyyyyyyyyyyyyyyyyyyyyyyyyyyyyyyyyyyyyyyyyyyyyyyyyyyyyyyyyyyyyyyyyyyyyyyyyyyyyyyyyyyyyyyyyyyyyyyyyyyyyyy","name":"xxxxxxxxxxxxxxxxxxxxxxxxxxxxxxxxxxxxxxxxxxxxxxxxxxxxxxxxxxxxxxxxxxxxxxxxxxxxxxxxxxxxxxxxxxxxxxxxxxxxxxxxxxxx","summaryMap":{"en":"wwwwwwwwwwwwwwwwwwwwwwwwwwwwwwwwwwwwwwwwwwwwwwwwwwwwwwwwww","fr":"vvvvvvvvvvvvvvvvvvvvvvvvvvvvvvvvvvvvvvvvvvvvvvvvvv"},"to":["https://unrelated.example.net/a","https://unrelated.example.net/b","https://unrelated.example.net/c"]}`
 
 const c12Doc = `{"@context":"https://www.w3.org/ns/activitystreams","id":"https://example.com/a/1","type":"Create","actor":{"id":"https://example.com/u/1","type":"Person","name":"A","inbox":"https://example.com/u/1/inbox"},"object":{"id":"https://example.com/n/1","type":"Note","contentMap":{"en":"hi","fr":"salut"},"to":["https://www.w3.org/ns/activitystreams#Public","https://example.com/u/1/followers","https://example.com/u/3"],"cc":["https://example.com/u/4","https://example.com/u/5"],"tag":[{"type":"Mention","href":"https://example.com/u/2"}]},"published":"2021-01-02T03:04:05Z"}`
 
@@ -416,7 +434,15 @@ func c12ConcurrentValue(i int, seed int) ap.Item {
 		c12Spare(x)
 		return x
 	}
-	return c12Gen.Example(seed*100003 + i)
+	x := c12Gen.Example(seed*100003 + i)
+	if i%5 == 1 {
+		// decoded from a document with a plain source content
+		doc := fmt.Sprintf(`{"type":"Note","id":"https://example.com/decoded/%d","source":{"content":"the source text of note %d","mediaType":"text/markdown"},"content":"rendered %d","name":"decoded note","to":["https://example.com/u/1"]}`, i, i, i)
+		if y, err := ap.UnmarshalJSON([]byte(doc)); err == nil && !ap.IsNil(y) {
+			return y
+		}
+	}
+	return x
 }
 
 func TestC12(t *testing.T) {
